@@ -36,12 +36,15 @@
    declaration order under their names; string_table_decoded (Proofs/GhwStringProofs.v) - the strings of the prefix-compressed
    string table are reconstructed whatever the shared lengths, one byte of length code or several; enum_bits_spec / enum_lits_codes - an enumeration of n literals is as many bits wide
    as n - 1 needs and its k-th literal has the binary code k.
+   header_decode_info_ok / ghw_file_store_ops (Proofs/GhwFileProofs.v): the decode information the header reader produces
+   satisfies the premise sigs_ok of the section theorems - the signal tracker's invariant through every registration, composite
+   signals included -, so that for a whole file read_signals_ops and read_signals_time_table hold with no assumption about the header.
    NOT proved: a description of the hierarchy of every declaration in terms of its type beyond these clauses; the same
    composition for the scalar value types (read_signals_ops /
    read_signals_time_table give well-formedness and the time table for all of them), the hierarchy; those are decided by the correspondence run on signal sections and by the GHW
    file generator (MANIFEST level_note). *)
 From WV Require Import Generated.Consts Model.Base Model.Bits Model.WaveMem Model.Ghw Spec.TimeSpec Proofs.TimeTableProofs Proofs.BitsProofs Proofs.StoreProofs Proofs.RawProofs Proofs.VecProofs Proofs.VecStepProofs Proofs.GhwProofs Proofs.GhwCycleProofs Model.Leb128
-  Model.Hierarchy Model.FstHier Model.GhwAlias Model.GhwHier Proofs.GhwHierProofs Proofs.GhwStringProofs.
+  Model.Hierarchy Model.FstHier Model.GhwAlias Model.GhwHier Proofs.GhwHierProofs Proofs.GhwStringProofs Model.GhwFile Proofs.GhwFileProofs.
 From Coq Require Import Sorted List. Import ListNotations.
 Open Scope N_scope.
 
@@ -284,6 +287,23 @@ Check enum_lits_codes :
   Forall2 (fun l s => nthN strings l = Some s) lits (map snd ls).
 
 
+
+(* the two halves of the loader fit together: the decode information of every header the model reads satisfies the premise of
+   the section theorems, so that for a whole file they hold without any assumption about the header *)
+Check header_decode_info_ok :
+  forall debug inp be res,
+  ghw_read_header debug inp = Ok (be, res) ->
+  exists sigs, decode_signals (tr_signals (ghr_tracker res)) = Ok sigs /\
+               sigs_ok sigs (map (fun v : nat * nat * bool * nat => if snd (fst v) then Two else Nine)
+                                 (decode_vectors (tr_vectors (ghr_tracker res)))).
+Check ghw_file_store_ops :
+  forall (parse_f64 : list byte -> option (list byte)) lz_compress cap debug inp res tpes blocks ttb,
+  1 <= cap ->
+  ghw_read_file lz_compress cap debug inp = Ok (res, tpes, Some (blocks, ttb)) -> bytes_ok (ghr_rest res) ->
+  (exists ops e', run_ops parse_f64 lz_compress cap (enc_new tpes) ops = Ok e' /\ Forall ghw_op_ok ops /\
+                  enc_finish lz_compress e' = Ok (blocks, ttb)) /\
+  (exists ops, Forall ghw_op_ok ops /\ ttb = accepted (times_of ops) /\ StronglySorted N.lt ttb).
+
 (* the string table: prefix-compressed strings are reconstructed, whatever the shared lengths *)
 Check string_table_decoded :
   forall cf recs buf table rest fuel,
@@ -304,6 +324,8 @@ Check (eq_refl : len_code = fix len_code fuel n :=
   end).
 Check string_table_example.
 
+Print Assumptions header_decode_info_ok.
+Print Assumptions ghw_file_store_ops.
 Print Assumptions string_table_decoded.
 Print Assumptions ghw_leaf_var.
 Print Assumptions array_labels.
